@@ -9,7 +9,7 @@
    Definitions only.  Times are whole seconds.  The farmed values (lpSupplies), the child-pool
    contributions, the amount TransferFundsForSwapFeeDistribution hands over, and the locker / vault
    populations enter as recorded environment values.  DistributeExtRewardLend (230-314) with AddLendExternalRewards.  Not modelled: stable-mint external
-   programs, ESM / circuit-breaker early returns of the external distributions. *)
+   programs. *)
 From Comdex Require Import Lib.Base Lib.DecArith Lib.F64.
 
 (* ---------------- SplitTotalAmountPerEpoch (uint64 arguments) ---------------- *)
@@ -206,8 +206,10 @@ Record ext := mkExt { x_kind : Z; x_denom : Z; x_avail : Z; x_active : bool; x_d
                       x_next : Z; x_minlock : Z }.
 (* population: the lockers of the (app, asset) lookup / the vaults of the (app, extended pair)
    mapping as (owner, NetBalance / AmountOut, CreatedAt) and the lookup's DepositedAmount /
-   TokenMintedAmount *)
-Record xenv := mkXenv { xe_total : Z; xe_pop : list (Z * Z * Z) }.
+   TokenMintedAmount;
+   and xe_halt: the kill switch (BreakerEnable) or the ESM status of the program's app is on *)
+Record xenv := mkXenvH { xe_total : Z; xe_pop : list (Z * Z * Z); xe_halt : bool }.
+Definition mkXenv (total : Z) (pop : list (Z * Z * Z)) : xenv := mkXenvH total pop false.
 Definition DAY : Z := 86400.
 
 (* finalDailyRewards of one locker / vault (fix C19-F3: the owner's balance is multiplied into the
@@ -259,8 +261,9 @@ Definition ext_tick (now : Z) (e : xenv) (bal : Z) (x : ext) : outcome (ext * Z 
 (* environment of one program: le_ok = the asset statistics of (pool, asset) were found (otherwise the
    whole function returns); le_new = (lend owner, min(farmed master-pool value, borrowed value)) of the
    borrow positions it walks, as Decs; le_price = (Twa, Decimals) of the reward asset when the asset
-   and its price are found *)
-Record lenv := mkLenv { le_ok : bool; le_new : list (Z * Z); le_price : option (Z * Z) }.
+   and its price are found; le_halt = the kill switch of the program's app is on *)
+Record lenv := mkLenvH { le_ok : bool; le_new : list (Z * Z); le_price : option (Z * Z); le_halt : bool }.
+Definition mkLenv (ok : bool) (new : list (Z * Z)) (price : option (Z * Z)) : lenv := mkLenvH ok new price false.
 
 (* the loop over ALL borrowers collected so far (the slices are declared outside the loop over the
    programs and never reset): finalDailyRewardsPerUser = amount_i.Mul(totalAPR), truncated *)
@@ -373,12 +376,16 @@ Fixpoint run_epochs (now : Z) (es : list epoch) (gs : list gauge) (fe : list far
       end
   end.
 
-(* DistributeExtRewardLocker (kind 0) / DistributeExtRewardVault (kind 1): the programs of one kind *)
+(* DistributeExtRewardLocker (kind 0) / DistributeExtRewardVault (kind 1): the programs of one kind in
+   id order.  At the top of the loop body, for EVERY program of the kind (active or not): when the
+   kill switch or the ESM status of its app is on the function returns an error - after the programs
+   before it have been paid; the caller's ApplyFuncIfNoError then drops the whole step. *)
 Fixpoint run_exts (kind now : Z) (xs : list ext) (xe : list xenv) (b : bank) : outcome (list ext * bank * dpays) :=
   match xs with
   | [] => Ok ([], b, [])
   | x :: rest =>
       if x_kind x =? kind then
+        if xe_halt (hd_xenv xe) then Err 2 else        (* return ErrCircuitBreakerEnabled / ErrESMAlreadyExecuted *)
         match ext_tick now (hd_xenv xe) (b (x_denom x)) x with
         | Panic => Panic | Err c => Err c
         | Ok (x', bal', paid) =>
@@ -400,6 +407,7 @@ Fixpoint run_lends (now : Z) (xs : list ext) (le : list lenv) (arr : list (Z * Z
   | [] => Ok ([], b, [])
   | x :: rest =>
       if x_kind x =? 2 then
+        if le_halt (hd_lenv le) then Err 2 else        (* return ErrCircuitBreakerEnabled *)
         match lend_tick now (hd_lenv le) arr tot (b (x_denom x)) x with
         | Panic => Panic | Err c => Err c
         | Ok None => Ok (xs, b, [])
